@@ -383,6 +383,21 @@ class Session:
         self.handles.append((len(self.cass) - 1, cas))
         return len(self.handles) - 1
 
+    def op_cas_reload(self, o):
+        from cassis import load_cas_from_json, load_cas_from_xmi
+        ci, h = self.handles[o["h"]]
+        ts = self.tss[self.cas_ts[ci]]
+        if o["fmt"] == "xmi":
+            cas = load_cas_from_xmi(h.to_xmi(), typesystem=ts, lenient=bool(h._lenient))
+            self.cas_ts.append(self.cas_ts[ci])
+        else:
+            cas = load_cas_from_json(h.to_json(), typesystem=ts, lenient=bool(h._lenient))
+            self.tss.append(cas.typesystem)
+            self.cas_ts.append(len(self.tss) - 1)
+        self.cass.append(cas)
+        self.handles.append((len(self.cass) - 1, cas))
+        return len(self.handles) - 1
+
     def op_conv_chain(self, o):
         from cassis import load_cas_from_json, load_cas_from_xmi
         from harness import dump
@@ -548,6 +563,53 @@ class Session:
     def op_cas_typecheck(self, o):
         ci, h = self.handles[o["h"]]
         return [e.xmiID for e in h.typecheck()]
+
+    def op_cas_comparable(self, o):
+        from cassis.util import cas_to_comparable_text
+        ci, h = self.handles[o["h"]]
+        kw = dict(mark_indexed=o.get("mark_indexed", True), covered_text=o.get("covered_text", True))
+        if o.get("exclude"):
+            kw["exclude_types"] = set(o["exclude"])
+        if o.get("seeds") is not None:
+            kw["seeds"] = [self.fss[i] for i in o["seeds"]]
+        res = cas_to_comparable_text(h, **kw)
+        # structures that received an id during the traversal
+        return {"text": res}
+
+    # ---- C14: raw bytes of the serialisers through the different sinks -------------------------------------
+    def _raw(self, call, sink):
+        import hashlib, tempfile
+        from pathlib import Path
+        if sink in (None, "none"):
+            text = call(None)
+            data = text.encode("utf-8")
+        else:
+            with tempfile.TemporaryDirectory(prefix="c14_") as d:
+                p = Path(d) / "out.bin"
+                r = call(str(p) if sink == "str" else p)
+                if r is not None:
+                    raise AssertionError("serialising to a path returned a value")
+                data = p.read_bytes()
+        return {"sha": hashlib.sha256(data).hexdigest(), "len": len(data)}
+
+    def op_raw_xmi(self, o):
+        ci, h = self.handles[o["h"]]
+        return self._raw(lambda path: h.to_xmi(path, pretty_print=o.get("pretty", False)), o.get("sink"))
+
+    def op_raw_json(self, o):
+        from cassis.typesystem import TypeSystemMode
+        ci, h = self.handles[o["h"]]
+        mode = {"full": TypeSystemMode.FULL, "minimal": TypeSystemMode.MINIMAL, "none": TypeSystemMode.NONE}[o.get("mode") or "full"]
+        return self._raw(lambda path: h.to_json(path, pretty_print=o.get("pretty", False), ensure_ascii=o.get("ascii", False),
+                                                type_system_mode=mode), o.get("sink"))
+
+    def op_raw_tsxml(self, o):
+        if "h" in o:
+            ci, h = self.handles[o["h"]]
+            ts = h.typesystem
+        else:
+            ts = self.tss[o["ts"]]
+        return self._raw(lambda path: ts.to_xml(path), o.get("sink"))
 
     def op_cas_find_all_fs(self, o):
         ci, h = self.handles[o["h"]]
